@@ -21,22 +21,25 @@ CONSTANTS
   ExtraIso <- MCExtra
   IonOf <- MCIon
   MaxLen = %d
+  EmitOneIn = %d
 INVARIANT EmitHist
 """
 
 
 def replay_behaviours(ctx, quick):
     maxlen = 14 if quick else 22
-    res = tlc.run("MC_CoreSim", SIM_CFG % maxlen, workers=16, simulate="num=%d" % (25 if quick else 400), depth=maxlen + 3,
+    res = tlc.run("MC_CoreSim", SIM_CFG % (maxlen, 8 if quick else 25), workers=16, simulate="num=%d" % (25 if quick else 150), depth=maxlen + 3,
                   seed=ctx.seed + 8, timeout=900)
     if res.rc != 0:
         ctx.error("MC_CoreSim: " + tlc.brief(res.out))
         return False
     by_prefix = {}
-    for x in res.printed():
+    for x in res.iter_printed():          # (every last-step sibling of every trace is printed: keep at most 4 per prefix)
         h = x["hist"]
         k = json.dumps([s["act"] for s in h[:-1]], sort_keys=True)
-        by_prefix.setdefault(k, {})[json.dumps(h[-1]["act"], sort_keys=True)] = h
+        d = by_prefix.setdefault(k, {})
+        if len(d) < 4:
+            d[json.dumps(h[-1]["act"], sort_keys=True)] = h
     rng = random.Random(ctx.seed)
     hs = []
     for k in sorted(by_prefix):
